@@ -182,6 +182,9 @@ func runC16(c *Ctx) {
 	c.unbufferedQueue("R16.7")
 	c.rule("R16.10", "every client-handler registration is kept (the option appends on every path; several objects may serve one namespace)")
 	c.handlerRegistrationsKept("R16.10")
+	c.rule("R16.11", "a reverse call pending when its client goes away is failed: an in-flight entry leaves the table only together with a completion, also on the response path")
+	c.inflightRemovalRule("R16.11")
+	c.deliveryRules("R16.11", "R16.11")
 	c.rule("R16.9", "a reverse call or notification picked up while the connection is going away is answered, not dropped: the accept arm is total for both id polarities")
 	c.acceptArmRule("R16.9")
 	c.rule("R16.8", "nested calls complete: the frame executor (which delivers the responses of reverse calls) never blocks on something only a finishing handler releases")
